@@ -1,4 +1,8 @@
 import GoflowModel.Lemmas.Engine
+import GoflowModel.Lemmas.EngineChain
+import GoflowModel.Lemmas.EngineWalk
+import GoflowModel.Lemmas.EngineWait
+import GoflowModel.Lemmas.EngineEvents
 import GoflowModel.Gen.Engine
 /-!
 # C01 — Session state machine is well-formed after every sprint
@@ -8,12 +12,17 @@ data-dependent decision read from an oracle).  All theorems hold for **every** a
 (any graph shape, missing flows, empty flows), **every** oracle (every contact, input, router
 and action behaviour) and **every** history of resumes.
 
-Proved here: clause (i) (a session handed back without error is waiting, completed or
-failed), clause (iv) (`exited_on` is set exactly for completed, failed and expired runs) and
-that no pushed flow is left pending, for every reachable session.  Clauses (ii), (iii) and (v)
-are stated below as decidable predicates (`Clause_ii`, `Clause_iii`) that the correspondence
-driver and the Go monitors evaluate on every generated history; their unbounded proofs are
-`…_partial` (see the file's end).
+Proved here, for every reachable session: clause (i) (a session handed back without error is
+waiting, completed or failed), clause (iv) (`exited_on` is set exactly for completed, failed and
+expired runs), that no pushed flow is left pending, and the run-status part of clause (ii)
+(`reachable_chain`: a waiting session has exactly one waiting run, every active run is a proper
+ancestor of it and the active runs are closed towards it; any other session has no active or
+waiting run; `reachable_waits_at_wait`: the waiting run is located on a node whose router has a
+wait; `reachable_clause_ii`: both together) and clause (iii) (`reachable_walk`: every path is a
+walk in its flow's graph) and clause (v) (`reachable_event_steps`: an event that names a step names
+one of its own run; `start_events_in_sprint`, `resume_events_in_sprint`: what a run records during
+a call is a subsequence of that call's sprint events).  `Clause_ii` and `Clause_iii` below are the
+decidable forms the correspondence driver evaluates on every generated history.
 -/
 namespace GoflowModel.Props.C01
 open GoflowModel.Engine
@@ -57,6 +66,81 @@ theorem reachable_wellformed (a : Assets) (o : Opts) (s : Session) (h : Reachabl
   | start orc st hst => exact start_wellformed a o orc st hst
   | resume orc s k st _ hres ih => exact resume_wellformed a o orc s k st ih hres
 
+/-- clause (ii), run statuses: in a waiting session exactly one run waits, every active run is a
+proper ancestor of it (`Anc`: reached from it by following `parent` at least once) and the runs
+between an active ancestor and the waiting run are active too; in a session that is not waiting
+no run is active or waiting -/
+def Chain (s : Session) : Prop :=
+  (s.status = .waiting →
+    ∃ w, runStatus s w = some .waiting ∧ (∀ i, i ≠ w → runStatus s i ≠ some .waiting) ∧
+      (∀ i, runStatus s i = some .active → Anc (parents s) w i) ∧
+      (∀ m p, Anc (parents s) w m → (parents s)[m]? = some (some p) →
+        runStatus s p = some .active → runStatus s m = some .active)) ∧
+  (s.status ≠ .waiting → ∀ i, runStatus s i ≠ some .active ∧ runStatus s i ≠ some .waiting)
+
+/-- the parent links of every reachable session point backwards, and clause (ii) holds of it -/
+theorem reachable_chain (a : Assets) (o : Opts) (s : Session) (h : Reachable a o s) :
+    PBC s ∧ Chain s := by
+  induction h with
+  | start orc st hst =>
+    have h1 := start_parents a o orc
+    have h2 := start_chain a o orc
+    rw [hst] at h1 h2
+    exact ⟨h1, h2.waiting, h2.done⟩
+  | resume orc s k st hr hres ih =>
+    have hw := reachable_wellformed a o s hr
+    have h1 := resume_parents a o orc s k ih.1
+    have h2 := resume_chain a o orc s k hw.2.1 hw.2.2 ih.1 ⟨ih.2.1, ih.2.2⟩
+    rw [hres] at h1 h2
+    exact ⟨h1, h2.waiting, h2.done⟩
+
+/-- so in a reachable waiting session the waiting run comes after every live run: each active run
+is a proper ancestor, and parents come earlier in `runs` -/
+theorem reachable_waiting_last (a : Assets) (o : Opts) (s : Session) (h : Reachable a o s)
+    (hw : s.status = .waiting) :
+    ∃ w, runStatus s w = some .waiting ∧ ∀ i, runStatus s i = some .active → i < w := by
+  obtain ⟨hp, hc, _⟩ := reachable_chain a o s h
+  obtain ⟨w, h1, _, h3, _⟩ := hc hw
+  exact ⟨w, h1, fun i hi => (h3 i hi).lt hp⟩
+
+/-- clause (ii), location: a reachable waiting session's waiting run is located (`PathLocation`)
+on a node that has a router with a wait -/
+theorem reachable_waits_at_wait (a : Assets) (o : Opts) (s : Session) (h : Reachable a o s)
+    (hw : s.status = .waiting) :
+    ∃ w step node, runStatus s w = some .waiting ∧ pathLocation a s w = some (step, node) ∧
+      node.hasRouter = true ∧ node.wait.isSome := by
+  have key : s.status = .waiting → ∃ w, WaitsAt a s w := by
+    cases h with
+    | start orc st hst =>
+      have := start_wait a o orc
+      rw [hst] at this; exact this
+    | resume orc s0 k st hr hres =>
+      have hw0 := reachable_wellformed a o s0 hr
+      have := resume_wait a o orc s0 k hw0.2.1 hw0.2.2 (reachable_chain a o s0 hr).1
+      rw [hres] at this; exact this
+  obtain ⟨w, node, h1, h2, h3, h4⟩ := key hw
+  obtain ⟨step, hs⟩ := pathLocation_of_atNode h2
+  exact ⟨w, step, node, h1, hs, h3, h4⟩
+
+/-- the three parts of clause (ii) together: the waiting run of `reachable_waits_at_wait` is the
+only waiting run and every active run is one of its proper ancestors -/
+theorem reachable_clause_ii (a : Assets) (o : Opts) (s : Session) (h : Reachable a o s) :
+    (s.status = .waiting →
+      ∃ w step node, runStatus s w = some .waiting ∧ (∀ i, i ≠ w → runStatus s i ≠ some .waiting) ∧
+        pathLocation a s w = some (step, node) ∧ node.hasRouter = true ∧ node.wait.isSome ∧
+        (∀ i, runStatus s i = some .active → Anc (parents s) w i)) ∧
+    (s.status ≠ .waiting → ∀ i, runStatus s i ≠ some .active ∧ runStatus s i ≠ some .waiting) := by
+  obtain ⟨_, hc1, hc2⟩ := reachable_chain a o s h
+  refine ⟨fun hw => ?_, hc2⟩
+  obtain ⟨w, h1, h2, h3, _⟩ := hc1 hw
+  obtain ⟨w', step, node, g1, g2, g3, g4⟩ := reachable_waits_at_wait a o s h hw
+  have : w' = w := by
+    by_cases e : w' = w
+    · exact e
+    · exact absurd g1 (h2 w' e)
+  subst this
+  exact ⟨w', step, node, h1, h2, g2, g3, g4, h3⟩
+
 /-- non-vacuity: a two-flow session that waits inside a sub-flow is reachable -/
 def exAssets : Assets :=
   [some ⟨[⟨[none], false, none⟩]⟩, some ⟨[⟨[none, none], true, some (.msg false)⟩]⟩]
@@ -69,6 +153,12 @@ def exOracle : Oracle :=
 example : ∃ st, start exAssets ⟨100, 500⟩ exOracle = .ok st ∧ st.s.status = .waiting ∧
     st.s.runs.map (·.status) = [.active, .waiting] := by
   refine ⟨_, rfl, ?_, ?_⟩ <;> decide
+
+/-- non-vacuity of `reachable_chain`: in that reachable session run 0 is active and is the parent of
+the waiting run 1 -/
+example : ∃ st, start exAssets ⟨100, 500⟩ exOracle = .ok st ∧ runStatus st.s 0 = some .active ∧
+    runStatus st.s 1 = some .waiting ∧ Anc (parents st.s) 1 0 := by
+  refine ⟨_, rfl, by decide, by decide, .parent (by decide)⟩
 
 /-- clause (ii) as a decidable predicate (evaluated by the driver on every history) -/
 def Clause_ii (a : Assets) (s : Session) : Bool :=
@@ -90,22 +180,84 @@ def Clause_ii (a : Assets) (s : Session) : Bool :=
     (List.range s.runs.length).all fun i =>
       runStatus s i != some .active && runStatus s i != some .waiting
 
-/-- clause (iii): every path is a walk in its flow's graph -/
-def walkFrom (nodes : List Node) : List Step → Bool
-  | [] => true
-  | [t] => match t.exit with
-    | none => decide (t.node < nodes.length)
-    | some e => ((nodes[t.node]?).map fun n => decide (e < n.exits.length)).getD false
-  | t :: u :: r =>
-    (match t.exit with
-     | none => false
-     | some e => ((nodes[t.node]?).bind fun n => n.exits[e]?) == some (some u.node)) &&
-    walkFrom nodes (u :: r)
-
+/-- clause (iii): every path is a walk in its flow's graph (`Engine.walkFrom`: a step's exit
+belongs to the step's node and leads to the next step's node; only the last step may lack one) -/
 def Clause_iii (a : Assets) (s : Session) : Bool :=
   s.runs.all fun r => match getFlow a r.flow with
     | some f => walkFrom f.nodes r.path
     | none => true
+
+/-- clause (iii) for every reachable session: whatever the flow graphs, the oracle and the
+history of resumes, every run whose flow asset exists has a path that is a walk in that flow -/
+theorem reachable_walk (a : Assets) (o : Opts) (s : Session) (h : Reachable a o s) :
+    Clause_iii a s = true := by
+  have key : WalkAllL a (pf s) := by
+    induction h with
+    | start orc st hst =>
+      have := start_walk a o orc
+      rw [hst] at this; exact this
+    | resume orc s k st hr hres ih =>
+      have hw := reachable_wellformed a o s hr
+      have := resume_walk a o orc s k hw.2.1 hw.2.2 (reachable_chain a o s hr).1 ih
+      rw [hres] at this; exact this
+  simp only [Clause_iii, List.all_eq_true]
+  intro r hr
+  obtain ⟨i, hi, rfl⟩ := List.getElem_of_mem hr
+  split
+  · rename_i f hf
+    exact key i _ _ (by simp [pf, List.getElem?_eq_getElem hi]) f hf
+  · rfl
+
+/-- non-vacuity: the reachable example session has non-empty paths, and `walkFrom` rejects a step
+whose exit leads elsewhere -/
+example : ∃ st, start exAssets ⟨100, 500⟩ exOracle = .ok st ∧
+    st.s.runs.map (·.path) = [[⟨0, none⟩], [⟨0, none⟩]] ∧ Clause_iii exAssets st.s = true := by
+  refine ⟨_, rfl, by decide, by decide⟩
+example : walkFrom [⟨[some 1], false, none⟩, ⟨[], false, none⟩] [⟨0, some 0⟩, ⟨0, none⟩] = false := by decide
+example : walkFrom [⟨[some 1], false, none⟩, ⟨[], false, none⟩] [⟨0, some 0⟩, ⟨1, none⟩] = true := by decide
+
+/-- clause (v), first half: in every reachable session every event a run holds that names a step
+names a step of that very run -/
+theorem reachable_event_steps (a : Assets) (o : Opts) (s : Session) (h : Reachable a o s) :
+    ∀ (r : Nat) (x : Run), s.runs[r]? = some x → ∀ e ∈ x.events, ∀ sr, e.step = some sr →
+      sr.run = r ∧ sr.idx < x.path.length := by
+  induction h with
+  | start orc st hst =>
+    have := start_ev a o orc
+    rw [hst] at this; exact this.1
+  | resume orc s k st _ hres ih =>
+    have := resume_ev a o orc s k ih
+    rw [hres] at this; exact this.1
+
+/-- clause (v), second half, for a start: everything the runs hold is, in order, among the
+sprint's events -/
+theorem start_events_in_sprint (a : Assets) (o : Opts) (orc : Oracle) (st : St) (h : start a o orc = .ok st) :
+    ∀ (r : Nat) (x : Run), st.s.runs[r]? = some x → List.Sublist x.events (st.sp.map (·.ev)) := by
+  intro r x hx
+  have := start_ev a o orc
+  rw [h] at this
+  obtain ⟨n, hn1, hn2⟩ := this.2.2.2 r x hx
+  rw [hn1]; exact hn2
+
+/-- clause (v), second half, for a resume of any reachable session: each run holds what it held
+before the call followed by events that are, in order, among the sprint's events (a run created
+during the call held nothing before) -/
+theorem resume_events_in_sprint (a : Assets) (o : Opts) (orc : Oracle) (s : Session) (k : ResumeKind) (st : St)
+    (hr : Reachable a o s) (h : resume a o orc s k = .ok st) :
+    ∀ (r : Nat) (x : Run), st.s.runs[r]? = some x →
+      ∃ new, x.events = ((s.runs[r]?).map (·.events)).getD [] ++ new ∧ List.Sublist new (st.sp.map (·.ev)) := by
+  intro r x hx
+  have := resume_ev a o orc s k (reachable_event_steps a o s hr)
+  rw [h] at this
+  exact this.2.2.2 r x hx
+
+/-- non-vacuity: the reachable example session recorded events, each naming step 0 of its own run,
+and its sprint lists them in order -/
+example : ∃ st, start exAssets ⟨100, 500⟩ exOracle = .ok st ∧
+    st.s.runs.map (fun x => x.events.map (fun e => (e.kind, e.step))) =
+      [[(15, some ⟨0, 0⟩)], [(20, some ⟨1, 0⟩)]] ∧
+    st.sp.map (fun se => (se.run, se.ev.kind)) = [(some 0, 15), (some 1, 20)] := by
+  refine ⟨_, rfl, by decide, by decide⟩
 
 /-- tie to the source: the resume kinds of the model are the registered resume types -/
 theorem resume_kinds_as_modelled :
